@@ -551,17 +551,17 @@ def check_c10(ctx):
     """no witness freedom: overrides everywhere (both wrappers, heavier share) + the gadget models"""
     from . import gadgets as G
     tally, rng = common(ctx)
-    n1 = pb_pipeline(ctx, tally, rng, 0.5 if ctx.quick else 0.6, 90 if ctx.quick else 1500)
-    n2 = qb_pipeline(ctx, tally, rng, 0.5 if ctx.quick else 0.6, 90 if ctx.quick else 1500) if n1 is not None else None
+    n1 = pb_pipeline(ctx, tally, rng, 0.3 if ctx.quick else 0.6, 60 if ctx.quick else 1500)
+    n2 = qb_pipeline(ctx, tally, rng, 0.3 if ctx.quick else 0.6, 60 if ctx.quick else 1500) if n1 is not None else None
     report(ctx, tally, "C10")
     if not ctx.violations and not ctx.replay:
         lines = G.tlc_modes(ctx, 2, ["lt", "contracts", "sort1"])
         if lines is not None:
             lt = [c for c in lines if c["g"] in ("lt", "enf")]
             st = [c for c in lines if c["g"] == "sort"]
-            G.replay(ctx, 2, lt, attack_every=3 if ctx.quick else 1)
+            G.replay(ctx, 2, lt, attack_every=5 if ctx.quick else 1)
             groups = sorted(G.group_inputs(st).items())
-            step = max(1, len(groups) // (150 if ctx.quick else 2000))
+            step = max(1, len(groups) // (100 if ctx.quick else 2000))
             G.replay(ctx, 2, [v["honest"] for i, (k_, v) in enumerate(groups) if i % step == 0 and v["honest"]], attack_every=2)
     ctx.cov["distinct_nontrivial"] = (n1 or 0) + (n2 or 0)
     ctx.cov["rule"] = ("as C06/C12, with the override catalogue (alias / borrow / negative halves on LowHigh generators, flipped equality bit "
